@@ -42,6 +42,9 @@ func init() {
 			{ID: "R11n", Floor: 1, Doc: "the rescan ends where the payload ends (payload-relative position against DataSize) (= R03e)", Run: ruleR03e},
 			{ID: "R11p", Floor: 4, Doc: "index regeneration from a stream positions itself through the audited reader adapters only (= R03o)", Run: ruleR03o},
 			{ID: "R11r", Floor: 1, Doc: "index decoders read their fixed-size fields completely (= R02i)", Run: ruleR02i},
+			{ID: "R11s", Floor: 1, Doc: "the index decoders accept what the encoders emit: equal neighbouring digests are legal (= R07n)", Run: ruleR07n},
+			{ID: "R11t", Floor: 1, Doc: "the selective writer's index has every section: a block is written once per session, matching the one-record-per-CID map (= R15a)", Run: ruleR15a},
+			{ID: "R11u", Floor: 2, Doc: "a record enters the session index only after its section was written, at the position held before the write (= R06a)", Run: ruleR06a},
 			{ID: "R11q", Floor: 1, Doc: "a decoded bucket has exactly as many records as the bytes read for it hold (= R09f)", Run: ruleR09f},
 		},
 	})
@@ -283,7 +286,7 @@ func ruleR11b(c *Ctx, r *Report) {
 				if !ok {
 					return
 				}
-				h := ci.Common().StaticCallee()
+				h := staticTarget(ci.Common())
 				if h == nil || h.Blocks == nil || h.Pkg != load.Pkg {
 					return
 				}
@@ -508,7 +511,24 @@ func ruleR11c(c *Ctx, r *Report) {
 		r.Check(bad == "", key, c.Pos(nw.Pos()), "New(K).Codec() == K", bad)
 	}
 	if len(cases) < 2 {
-		r.Undec("registry@index.New", c.Pos(nw.Pos()), "fewer than two codec cases recognised")
+		// the same registry written as a lookup table filled in the package initialiser
+		if tab, ok := tableRegistry(c, nw); ok && len(tab) >= 2 {
+			var ks []int64
+			for k := range tab {
+				ks = append(ks, k)
+			}
+			sort.Slice(ks, func(i, j int) bool { return ks[i] < ks[j] })
+			for _, k := range ks {
+				got := codecOfType(c, tab[k])
+				bad := ""
+				if got != k {
+					bad = fmt.Sprintf("index.New(%#x) returns an implementation whose Codec() is %#x: an index written with one codec is read back as the other", k, got)
+				}
+				r.Check(bad == "", fmt.Sprintf("registry@index.New#%#x", k), c.Pos(nw.Pos()), "New(K).Codec() == K (table entry)", bad)
+			}
+		} else {
+			r.Undec("registry@index.New", c.Pos(nw.Pos()), "fewer than two codec cases recognised")
+		}
 	}
 	// WriteTo prefix / ReadFrom
 	wt, err1 := c.Func(pkgIndex, "", "WriteTo")
@@ -974,7 +994,7 @@ func funcValueTarget(v ssa.Value) *ssa.Function {
 		var tgt *ssa.Function
 		eachInstr(f, func(in ssa.Instruction) {
 			if ci, ok := in.(ssa.CallInstruction); ok {
-				if sc := ci.Common().StaticCallee(); sc != nil {
+				if sc := staticTarget(ci.Common()); sc != nil {
 					tgt = sc
 				}
 			}
@@ -1069,6 +1089,13 @@ func ruleR11o(c *Ctx, r *Report) {
 		}
 		if k, ok := constInt(bo.Y); ok {
 			got = append(got, fmt.Sprintf("%#x", k))
+		}
+	}
+	if len(got) == 0 {
+		if tab, ok := tableRegistry(c, nw); ok {
+			for k := range tab {
+				got = append(got, fmt.Sprintf("%#x", k))
+			}
 		}
 	}
 	sort.Strings(got)
